@@ -25,8 +25,12 @@ FUNCS = {
  "clo": "",
  "div": "div := func(a, b) { return a / b }\n",
  "cb": "cb := func(n) { return invoke(add, n, n) }\n",
+ # a Go function the script calls panics and the function catches it (a Go panic that leaves an invoked function reaches
+ # the Go caller as a panic report with a Go stack, not as the plain error an in-script caller catches: host panics are
+ # outside the functions the property quantifies over, that form is not compared)
+ "pan": "pan := func(x) { try { gopanic(x) } catch e { counter += 1; return [\"caught\", x] } finally { counter += 100 }; return \"none\" }\n",
 }
-ARITY = {"add": 2, "vr": None, "vk": None, "vw": None, "thr": 1, "rec": 1, "tail": 2, "disc": 1, "imp": 1, "glob": 1, "nest": 1, "cat": 1, "clo": 1, "div": 2, "cb": 1}
+ARITY = {"add": 2, "vr": None, "vk": None, "vw": None, "thr": 1, "rec": 1, "tail": 2, "disc": 1, "imp": 1, "glob": 1, "nest": 1, "cat": 1, "clo": 1, "div": 2, "cb": 1, "pan": 1}
 
 def gen_seq(rng, names):
     seq = []
@@ -114,7 +118,7 @@ def run(rep, br, proofs, rng, tier):
             rep.violation({"property": "C14", "kind": "correspondence", "why": "argument binding model (VM/CallBinding.v) and implementation disagree", "case": c["line"], "impl": c["impl"], "model": c["model"]}, found=False)
     rep.coverage.update({
         "evaluations": len(cases) + len(tcases), "distinct_nontrivial": accepted + compared,
-        "rule": "argument binding: every (0..4 parameters, fixed / variadic, 0..6 arguments, plain / spread with arrays of 0..3 elements or a non-array) through an in-script call, Run and Invoker.Invoke, implementation vs model and entry points against each other on accepted tuples; invoke twins: the host re-uses one argument buffer for all its Invoke calls; generated definitions (counters captured by closures, variadic incl. functions that keep or write through their variadic parameter, throwing, recursive incl. tail and discarded self calls, importing, global-writing, try/finally, nested callbacks) x call sequences executed in-script, through a Go callback during the run (pooled / unpooled Invoker made per call, and one Invoker per function kept for the whole run so that its child VM is re-used) and after the run (pooled / unpooled), comparing every result, error text and the final captured state",
+        "rule": "argument binding: every (0..4 parameters, fixed / variadic, 0..6 arguments, plain / spread with arrays of 0..3 elements or a non-array) through an in-script call, Run and Invoker.Invoke, implementation vs model and entry points against each other on accepted tuples; invoke twins: the host re-uses one argument buffer for all its Invoke calls; generated definitions (counters captured by closures, variadic incl. functions that keep or write through their variadic parameter, throwing, recursive incl. tail and discarded self calls, importing, global-writing, try/finally, nested callbacks, a panicking Go function caught inside the function; recovery enabled) x call sequences executed in-script, through a Go callback during the run (pooled / unpooled Invoker made per call, and one Invoker per function kept for the whole run so that its child VM is re-used) and after the run (pooled / unpooled), comparing every result, error text and the final captured state",
         "samples": [cases[5]["line"], tcases[0]["line"][:600]],
         "binding_cases": len(cases), "binding_accepted": accepted, "twin_runs_compared": compared,
         "disagreements": len(dis), "oracle_failures": len(fails)})
